@@ -42,6 +42,7 @@ func checkC14(c *core.Ctx) {
 	sharedMutableGlobals(c, p)
 	nRanges := 0
 	sortsParam = makeSortsParam(p)
+	resultOnlyFoldedIntoSets = makeResultOnlyFoldedIntoSets(p)
 	for _, pk := range libraryPkgs(p) {
 		info := pk.TypesInfo
 		for _, file := range pk.Syntax {
@@ -307,6 +308,11 @@ func classifyMapRange(info *types.Info, fd *ast.FuncDecl, rs *ast.RangeStmt) (bo
 			// and appended to, never returned, stored or handed to a call — the
 			// order of its elements decides the order of the visit, not the result
 			if localWorkList(info, fd, sl) {
+				continue
+			}
+			// the slice is this function's result and every caller only folds it
+			// into a set: `for _, x := range f() { m[x] = … }`
+			if resultOnlyFoldedIntoSets != nil && resultOnlyFoldedIntoSets(info, fd, sl) {
 				continue
 			}
 			return false, "appends to " + sl + " in map iteration order and never sorts it"
@@ -1174,4 +1180,140 @@ func localWorkList(info *types.Info, fd *ast.FuncDecl, sl string) bool {
 		return true
 	})
 	return ok
+}
+
+
+// resultOnlyFoldedIntoSets is set by checkC14: the local slice sl of fd is
+// only appended to and returned, fd is not exported, and every call of fd in
+// the program is the operand of a range statement whose body does nothing but
+// store into maps under the element as key — the order of the slice cannot
+// reach the output.
+var resultOnlyFoldedIntoSets func(info *types.Info, fd *ast.FuncDecl, sl string) bool
+
+func makeResultOnlyFoldedIntoSets(p *load.Prog) func(info *types.Info, fd *ast.FuncDecl, sl string) bool {
+	return func(info *types.Info, fd *ast.FuncDecl, sl string) bool {
+		self, _ := info.Defs[fd.Name].(*types.Func)
+		if self == nil || self.Exported() {
+			return false
+		}
+		// sl: only `sl = append(sl, …)`, `return sl`, len(sl), declaration
+		var obj types.Object
+		usesOK := true
+		var stack []ast.Node
+		ast.Inspect(fd.Body, func(n ast.Node) bool {
+			if n == nil {
+				stack = stack[:len(stack)-1]
+				return true
+			}
+			stack = append(stack, n)
+			id, isId := n.(*ast.Ident)
+			if !isId || id.Name != sl || len(stack) < 2 {
+				return true
+			}
+			o := info.ObjectOf(id)
+			if _, isVar := o.(*types.Var); !isVar {
+				return true
+			}
+			if obj == nil {
+				obj = o
+			}
+			if o != obj {
+				return true
+			}
+			switch par := stack[len(stack)-2].(type) {
+			case *ast.ReturnStmt, *ast.ValueSpec:
+			case *ast.AssignStmt:
+				isLhs := false
+				for _, l := range par.Lhs {
+					if l == ast.Expr(id) {
+						isLhs = true
+					}
+				}
+				if !isLhs {
+					usesOK = false
+				}
+			case *ast.CallExpr:
+				fn := wire.Canon(par.Fun)
+				if !(fn == "len" || fn == "cap" || (fn == "append" && len(par.Args) > 0 && par.Args[0] == ast.Expr(id))) {
+					usesOK = false
+				}
+			default:
+				usesOK = false
+			}
+			return true
+		})
+		if obj == nil || !usesOK {
+			return false
+		}
+		calls, ok := 0, true
+		for fn, cfd := range p.AllDecls() {
+			pk := p.Owner(fn)
+			if pk == nil || cfd.Body == nil {
+				continue
+			}
+			ci := pk.TypesInfo
+			rangeOperands := map[*ast.CallExpr]*ast.RangeStmt{}
+			ast.Inspect(cfd.Body, func(n ast.Node) bool {
+				if rs, isR := n.(*ast.RangeStmt); isR {
+					if call, isC := ast.Unparen(rs.X).(*ast.CallExpr); isC {
+						rangeOperands[call] = rs
+					}
+				}
+				return true
+			})
+			ast.Inspect(cfd.Body, func(n ast.Node) bool {
+				call, isC := n.(*ast.CallExpr)
+				if !isC || load.Callee(ci, call) != self {
+					return true
+				}
+				calls++
+				rs := rangeOperands[call]
+				if rs == nil || rs.Value == nil {
+					ok = false
+					return true
+				}
+				elem, isId := rs.Value.(*ast.Ident)
+				if !isId {
+					ok = false
+					return true
+				}
+				eo := ci.ObjectOf(elem)
+				for _, st := range rs.Body.List {
+					as, isA := st.(*ast.AssignStmt)
+					if !isA || len(as.Lhs) != 1 || as.Tok != token.ASSIGN {
+						ok = false
+						continue
+					}
+					ix, isIx := ast.Unparen(as.Lhs[0]).(*ast.IndexExpr)
+					if !isIx {
+						ok = false
+						continue
+					}
+					if _, isMap := ci.TypeOf(ix.X).Underlying().(*types.Map); !isMap {
+						ok = false
+					}
+					if kid, isK := ast.Unparen(ix.Index).(*ast.Ident); !isK || ci.ObjectOf(kid) != eo {
+						ok = false
+					}
+					// the stored value must not depend on the position in the slice:
+					// no call in it, and no reference to the key variable of the range
+					ast.Inspect(as.Rhs[0], func(m ast.Node) bool {
+						if _, isCall := m.(*ast.CallExpr); isCall {
+							ok = false
+						}
+						if rs.Key != nil {
+							if mid, isM := m.(*ast.Ident); isM {
+								if kid, isK := rs.Key.(*ast.Ident); isK && kid.Name != "_" && ci.ObjectOf(mid) == ci.ObjectOf(kid) {
+									ok = false
+								}
+							}
+						}
+						return true
+					})
+				}
+				return true
+			})
+		}
+		return ok && calls > 0
+	}
 }
